@@ -365,6 +365,10 @@ class Interp:
                     env.vars[top] = self.resolve_import(top)
         elif t is ast.ImportFrom:
             self._exec_importfrom(st, env)
+        elif t is ast.Global:
+            env.vars.setdefault("__global_names__", set()).update(st.names)
+        elif t is ast.Nonlocal:
+            env.vars.setdefault("__nonlocal_names__", set()).update(st.names)
         elif t is ast.Delete:
             for tgt in st.targets:
                 if isinstance(tgt, ast.Name):
@@ -529,6 +533,17 @@ class Interp:
     def assign(self, tgt: ast.expr, val: Any, env: Env) -> None:
         t = type(tgt)
         if t is ast.Name:
+            if tgt.id in env.vars.get("__global_names__", ()):
+                self.emit("setattr", obj=ModuleRef(env.module), attr=tgt.id, value=val, shared=self.init_depth == 0)
+                self.module_ns(env.module)[tgt.id] = val
+                return
+            if tgt.id in env.vars.get("__nonlocal_names__", ()):
+                e = env.parent
+                while e is not None:
+                    if tgt.id in e.vars and e.func is not None:
+                        e.vars[tgt.id] = val
+                        return
+                    e = e.parent
             env.vars[tgt.id] = val
         elif t is ast.Attribute:
             self.setattr(self.eval(tgt.value, env), tgt.attr, val)
@@ -627,6 +642,11 @@ class Interp:
             raise self.unsupported(f"decorator {n} on {name}")
         if isinstance(dec, ExtObj) and dec.kind == "dataclass_decorator":
             return self._make_dataclass(fn, dec.attrs)
+        if isinstance(dec, ExtObj) and dec.kind == "property_setter":
+            prop = dec.attrs["prop"]
+            new = FuncRef(prop.info, prop.env, prop.defaults, "property")
+            new.setter = fn  # type: ignore[attr-defined]
+            return new
         if isinstance(dec, ExtObj) and dec.kind == "singledispatch_register":
             dec.attrs["sd"].registry.append((dec.attrs["cls"], fn))
             self.emit("register", what=dec.attrs["sd"].default.info.qualname)
@@ -824,6 +844,8 @@ class Interp:
             m = self.lookup_class_attr(fn.cls, "__call__")
             if m is not MISSING:
                 return self.call(self.bind(m, fn, fn.cls), args, kwargs)
+        if isinstance(fn, ExtObj) and fn.kind == "functools.partial":
+            return self.call(fn.attrs["func"], list(fn.attrs["args"]) + list(args), {**fn.attrs["kwargs"], **kwargs})
         if isinstance(fn, Unknown):
             self.emit("ext", name="call-unknown", recv=repr(fn))
             return fresh_unknown("result of unknown callable")
@@ -1044,7 +1066,11 @@ class Interp:
                 raise self.exc("FrozenInstanceError", f"cannot assign to field '{name}'")
             prop = self.lookup_class_attr(obj.cls, name)
             if isinstance(prop, FuncRef) and prop.kind == "property":
-                raise self.exc("AttributeError", f"property '{name}' has no setter")
+                setter = getattr(prop, "setter", None)
+                if setter is None:
+                    raise self.exc("AttributeError", f"property '{name}' has no setter")
+                self.call_function(setter, [obj, val], {})
+                return
             self.emit("setattr", obj=obj, attr=name, value=val, shared=obj.shared and self.init_depth == 0)
             obj.attrs[name] = val
             return
